@@ -208,6 +208,17 @@ Definition make_function_internal (args : list val) (env : val) (envmod : text) 
 
 (* natives that do not call back into the evaluator; arguments already validated against the
    generated signature.  None = not one of these. *)
+(* export: every element must be a symbol; the names before the first non-symbol stay exported *)
+Fixpoint export_walk (name : text) (st : state) (l : list val) : state * res :=
+  match l with
+  | [] => (st, ROk sym_ok)
+  | x :: r => match getv x with
+              | VSym sx => export_walk name (add_export st (sym_name sx)) r
+              | _ => (st, RSig (make_error "wrong-argument-type" name
+                                 [("expected", vsym "symbol-type"); ("actual", vsym (tlabel_name (get_type x))); ("symbol", x)]))
+              end
+  end.
+
 (* send: walks the property list two by two; a lone last key is an invalid property list *)
 Fixpoint send_walk (name : text) (l : list val) : res :=
   match l with
@@ -341,16 +352,7 @@ Definition simple_native (st : state) (name : text) (args : list val) (d : N) : 
     | [names] =>
       match list_to_vec names with
       | Some l =>
-        let go := fix go (st : state) (l : list val) : state * res :=
-                    match l with
-                    | [] => (st, ROk sym_ok)
-                    | x :: r => match getv x with
-                                | VSym sx => go (add_export st (sym_name sx)) r
-                                | _ => (st, RSig (make_error "wrong-argument-type" name
-                                                   [("expected", vsym "symbol-type"); ("actual", vsym (tlabel_name (get_type x))); ("symbol", x)]))
-                                end
-                    end in
-        Some (go st l)
+        Some (export_walk name st l)
       | None => bad
       end
     | _ => bad
@@ -399,7 +401,7 @@ Definition simple_native (st : state) (name : text) (args : list val) (d : N) : 
         | Some info => Some (st, ROk (plist [("kind", vsym (if n_macro info then "macro" else "lambda"));
                                             ("parameters", vec_to_list (map tsym (n_params info)));
                                             ("body", VNil); ("environment", VNil); ("module", tsym [])]))
-        | None => bad
+        | None => Some (st, RPanic "model: native function value without a table entry")   (* not a value the interpreter can make *)
         end
       | _ => bad
       end
